@@ -480,6 +480,26 @@ example : UniqueFold toyEnv id toySt := by
 example : searchUserRaw toyEnv toySt 33 = .ok (3, some 33) ∧ searchUserRaw toyEnv toySt 44 = .ok (0, none) ∧
     searchUserRaw toyEnv toySt 0 = .ok (0, none) := ⟨by rfl, by rfl, by rfl⟩
 
+/-- the hypotheses of `inv_reload_onfly` are satisfiable: the toy table reloaded on the fly from an agreeing file
+(slot 3, empty and unlinked so far, gets linked for registration: 0 → 1 → 2 → 3) -/
+example : ∃ s', loadUHash toyEnv toySt (some ([11, 22, 33, 0], false)) = .ok (s', .ok) ∧ Inv toyEnv s' ∧
+    s'.next = [1, 2, 3, -1] := by
+  have hag : Agree toyEnv [11, 22, 33, 0] toySt := by
+    intro j r hj
+    match j, hj with
+    | 0, hj => simp at hj; subst hj; exact ⟨11, rfl, rfl⟩
+    | 1, hj => simp at hj; subst hj; exact ⟨22, rfl, rfl⟩
+    | 2, hj => simp at hj; subst hj; exact ⟨33, rfl, rfl⟩
+    | 3, hj => simp at hj; subst hj; exact ⟨0, rfl, rfl⟩
+    | j + 4, hj => simp at hj
+  obtain ⟨s', hrun, hinv, _⟩ := inv_reload_onfly toy_laws toy_inv (by decide) [11, 22, 33, 0] hag
+  refine ⟨s', hrun, hinv, ?_⟩
+  have : loadUHash toyEnv toySt (some ([11, 22, 33, 0], false)) =
+      .ok ({ userid := [11, 22, 33, 0], head := [0], next := [1, 2, 3, -1], number := 4, loaded := 1 }, .ok) := by rfl
+  rw [this] at hrun
+  cases hrun
+  rfl
+
 /-- `Reach` is inhabited beyond the cold load: cold load of three colliding records, a rename, a bare remove -/
 example : ∃ s, Reach toyEnv s [0] ∧ s.userid = [11, 55, 33, 0] := by
   obtain ⟨s1, h1, _, hn1, hl1⟩ := inv_init_cold_reset toy_laws [11, 22, 33] (by decide)
